@@ -6,7 +6,9 @@
 // a decoder or of a penalty (DoS / Misbehave with its reason). The model restates these lists
 // (Model/NetParseFacts.lean) and Lean compares them, so an edited guard, a dropped Unlock or a new
 // index expression breaks a proof obligation. It also evaluates maxmsgsize() into a Lean function
-// and extracts the command → handler table of Run's switch.
+// and extracts the command → handler table of Run's switch. It also compares, clause by clause, the
+// switch of the harness's dispatch mirror (client/network/verif_export.go VerifDispatch, the second
+// stream of go/cmd/c18) with Run's `switch cmd.cmd` and exits non-zero on any difference.
 package main
 
 import (
